@@ -276,7 +276,12 @@ func runOp(ctx context.Context, rc *regclient.RegClient, c *Case, o Op) error {
 		_, err = rc.BlobPut(ctx, rTag, d, bytes.NewReader(data))
 	case "bmount":
 		var rt ref.Ref
-		rt, err = mkRef(c.refName(o.Reg) + "/" + repoNames[1-repo] + ":mnt")
+		if c.isReg(o.Tgt) && o.Tgt != o.Reg {
+			// source and target on different registries
+			rt, err = mkRef(c.refName(o.Tgt) + "/" + repoNames[o.TgtRepo&1] + ":mnt")
+		} else {
+			rt, err = mkRef(c.refName(o.Reg) + "/" + repoNames[1-repo] + ":mnt")
+		}
 		if err != nil {
 			return fmt.Errorf("harness-ref: %w", err)
 		}
